@@ -236,6 +236,9 @@ func crlWorkload(wl workload, dir string) {
 	}
 	var originMu sync.Mutex
 	sets := make([]*cdpSet, nsets)
+	// the issuing CA after a key roll: same name, new key (handshakes presenting it repair an entry
+	// whose last refresh failed signature verification)
+	int2 := w.Root.Issue(pki.CertOpts{RawSubject: w.Int.Cert.RawSubject, IsCA: true})
 	publish := func(s *cdpSet, fault string) {
 		originMu.Lock()
 		defer originMu.Unlock()
@@ -245,6 +248,10 @@ func crlWorkload(wl workload, dir string) {
 		switch fault {
 		case "":
 			w.CRL.Set(s.path, origin.Good(d))
+		case "key-rolled":
+			sp := gen.SpecFor(w.Int, es)
+			sp.Exts = [][]byte{crlgen.AKIKeyID(int2.Cert.SubjectKeyId), crlgen.CRLNumberExt(big.NewInt(9))}
+			w.CRL.Set(s.path, origin.Good(sp.Build(int2.Key).DER))
 		case "badsig":
 			d[len(d)-1] ^= 1
 			w.CRL.Set(s.path, origin.Good(d))
@@ -289,15 +296,18 @@ func crlWorkload(wl workload, dir string) {
 			certs = append(certs, hsCert{w.Leaf(s.always, []string{s.url}, nil), s, true})
 			certs = append(certs, hsCert{w.Leaf(s.never, []string{s.url}, nil), s, false})
 		}
+		// certificates issued after the key roll: their chain carries the new CA certificate
+		l2c := int2.Leaf(s.never, []string{s.url}, nil)
+		certs = append(certs, hsCert{[]*x509.Certificate{l2c, int2.Cert, w.Root.Cert}, s, false})
 	}
-	var stop, cleanedUp atomic.Bool
+	var stop, cleanedUp, cleanupStarted atomic.Bool
 	var wg sync.WaitGroup
 	var handshakes, overlap, steps atomic.Int64
 	for g := 0; g < wl.Goroutines; g++ {
 		wg.Add(1)
 		go func(g int) {
 			defer wg.Done()
-			handshakeLoop(g, wl, chk, certs, &stop, &cleanedUp, &handshakes, &overlap)
+			handshakeLoop(g, wl, chk, certs, &stop, &cleanedUp, &cleanupStarted, &handshakes, &overlap)
 		}(g)
 	}
 	wg.Add(1)
@@ -306,6 +316,7 @@ func crlWorkload(wl workload, dir string) {
 		stepperLoop(wl, chk, sets, publish, cfgLocs, w, &stop, &cleanedUp, &steps)
 	}()
 	time.Sleep(time.Duration(wl.DurationMs) * time.Millisecond)
+	cleanupStarted.Store(true)
 	cleanupCall(chk, &cleanedUp)
 	time.Sleep(30 * time.Millisecond)
 	stop.Store(true)
@@ -316,7 +327,7 @@ func crlWorkload(wl workload, dir string) {
 }
 
 // handshakeLoop: role "handshake" (appears in race report stacks).
-func handshakeLoop(g int, wl workload, chk *l2.Checker, certs []hsCert, stop, cleanedUp *atomic.Bool, handshakes, overlap *atomic.Int64) {
+func handshakeLoop(g int, wl workload, chk *l2.Checker, certs []hsCert, stop, cleanedUp, cleanupStarted *atomic.Bool, handshakes, overlap *atomic.Int64) {
 	r := rand.New(rand.NewSource(wl.Seed + int64(g)*104729))
 	for !stop.Load() {
 		c := certs[r.Intn(len(certs))]
@@ -331,11 +342,11 @@ func handshakeLoop(g int, wl workload, chk *l2.Checker, certs []hsCert, stop, cl
 		})
 		handshakes.Add(1)
 		afterCleanup := cleanedUp.Load()
-		if startedBeforeCleanup && afterCleanup {
+		if startedBeforeCleanup && cleanupStarted.Load() {
 			overlap.Add(1)
 		}
-		if afterCleanup {
-			continue // calls overlapping or following Cleanup may fail; they must only return
+		if afterCleanup || cleanupStarted.Load() {
+			continue // calls overlapping or following Cleanup may fail (C09 judges them); here they must only return
 		}
 		// verdict sanity (sound superset of the sequential outcomes)
 		switch {
@@ -360,7 +371,7 @@ func handshakeLoop(g int, wl workload, chk *l2.Checker, certs []hsCert, stop, cl
 func stepperLoop(wl workload, chk *l2.Checker, sets []*cdpSet, publish func(*cdpSet, string), cfgLocs []*core.CRLLocations, w *world.World, stop, cleanedUp *atomic.Bool, steps *atomic.Int64) {
 	r := rand.New(rand.NewSource(wl.Seed ^ 0x51e9))
 	chains := core.NewCertificateChains([][]*x509.Certificate{{w.Int.Cert, w.Root.Cert}}, []*x509.Certificate{w.Int.Cert})
-	faults := []string{"", "", "", "badsig", "garbage", "http500", "badsig"}
+	faults := []string{"", "", "", "badsig", "garbage", "http500", "badsig", "key-rolled", "key-rolled"}
 	for !stop.Load() && !cleanedUp.Load() {
 		s := sets[r.Intn(len(sets))]
 		switch r.Intn(6) {
@@ -379,9 +390,11 @@ func stepperLoop(wl workload, chk *l2.Checker, sets []*cdpSet, publish func(*cdp
 			}
 		case 5:
 			// the state 'last refresh failed signature verification', then handshakes hit AddCRL
-			publish(s, "badsig")
+			publish(s, []string{"badsig", "key-rolled", "key-rolled"}[r.Intn(3)])
 			guard("update-pass(true)", func() { chk.C.VerifUpdateCRLs(true) })
-			publish(s, "")
+			if r.Intn(2) == 0 {
+				publish(s, "")
+			}
 		}
 		steps.Add(1)
 		time.Sleep(time.Duration(200+r.Intn(1500)) * time.Microsecond)
